@@ -111,8 +111,24 @@ def r16_1(ctx):
                     x.strip().startswith('self.') for x in a[len(rebuilt):-1].split(',')):
                 ctx.met('R16.1', construct, '_adjoint rebuilds the self-transpose operator from its own (conjugated) fields', ad.node)
             else:
-                ctx.undecided('R16.1', construct, '_adjoint vs _transpose differ in shape', ad.node,
-                              'bodies are not equal after replacing adjoint spellings by .T')
+                # same construction over the operand sequence, but traversed in a different order?
+                def iter_sources(fn):
+                    return [src(g.iter).replace(' ', '') for g in ast.walk(fn) if isinstance(g, ast.comprehension)]
+                ia, it_ = iter_sources(ad.node), iter_sources(tr.node)
+
+                def unrev(s):
+                    if s.startswith('reversed(') and s.endswith(')'):
+                        return s[len('reversed('):-1], True
+                    if s.endswith('[::-1]'):
+                        return s[:-len('[::-1]')], True
+                    return s, False
+                if len(ia) == len(it_) == 1 and unrev(ia[0])[0] == unrev(it_[0])[0] and unrev(ia[0])[1] != unrev(it_[0])[1]:
+                    ctx.violated('R16.1', construct, '_adjoint and _transpose traverse the operands in the same order', ad.node,
+                                 '_adjoint iterates `%s` but _transpose iterates `%s`: for Kronecker and block structures the adjoint is taken factor '
+                                 'by factor IN PLACE ((A x B)^H = A^H x B^H); reversing the order is the rule for matrix products' % (ia[0], it_[0]))
+                else:
+                    ctx.undecided('R16.1', construct, '_adjoint vs _transpose differ in shape', ad.node,
+                                  'bodies are not equal after replacing adjoint spellings by .T')
 
 
 class _AdjCanon(ast.NodeTransformer):
@@ -218,9 +234,45 @@ def _loops(fn):
     return [n for n in own_nodes(fn) if isinstance(n, (ast.For, ast.While))]
 
 
+def _accumulator_dtype(ctx, c):
+    """Operators built from several operands declare the dtype of their FIRST operand (ops[0].dtype).  That is harmless as
+    long as results are accumulated in default float64 buffers; an accumulator allocated with dtype=self.dtype narrows
+    every contribution to the first operand's type (float32, or an integer selection matrix: casting error)."""
+    init = c.methods.get('__init__')
+    if init is None:
+        return
+    first_only = None
+    for call in ast.walk(init.node):
+        if isinstance(call, ast.Call) and (src(call.func).endswith('LinearOperator.__init__') or src(call.func) in ('super().__init__',)):
+            cands = [kw.value for kw in call.keywords if kw.arg == 'dtype'] + [a for a in call.args]
+            for d in cands:
+                t = src(d).replace(' ', '')
+                if t.endswith('[0].dtype'):
+                    first_only = d
+    if first_only is None:
+        return
+    for mname in ('_matvec', '_matmat', '_rmatvec', '_rmatmat'):
+        m = c.methods.get(mname)
+        if m is None:
+            continue
+        for call in ast.walk(m.node):
+            if isinstance(call, ast.Call) and (call_name(call) or '') in ('np.zeros', 'np.empty', 'np.zeros_like', 'np.empty_like', 'np.full'):
+                dt = kwarg(call, 'dtype', 99)
+                accumulates = any(isinstance(s, ast.AugAssign) for s in ast.walk(m.node))
+                if dt is None:
+                    ctx.met('R16.4', '%s.%s.%s' % (MOD, c.name, mname), 'accumulator ' + src(call), call, 'default float64 buffer')
+                elif src(dt).replace(' ', '') == 'self.dtype' and accumulates:
+                    ctx.violated('R16.4', '%s.%s.%s' % (MOD, c.name, mname), 'accumulator ' + src(call), call,
+                                 'the buffer takes self.dtype, which __init__ sets from the first operand only (`%s`): contributions of the other '
+                                 'operands are cast down to it (float32 first: single-precision result; integer first: casting error)' % src(first_only))
+                else:
+                    ctx.undecided('R16.4', '%s.%s.%s' % (MOD, c.name, mname), 'accumulator ' + src(call), call, 'dtype %s' % src(dt))
+
+
 def r16_4(ctx):
     n = 0
     for c in linop_classes(ctx.prog):
+        _accumulator_dtype(ctx, c)
         mv, mm = c.methods.get('_matvec'), c.methods.get('_matmat')
         if mv is None or mm is None:
             continue
